@@ -31,3 +31,12 @@ Theorem C11_unlock_bounded : forall have req, 0 <= have -> 0 <= req ->
   0 <= unlock_amount have req /\ unlock_amount have req <= req /\ unlock_amount have req <= have.
 Proof. exact unlock_amount_bound. Qed.
 Print Assumptions C11_unlock_bounded.
+
+(* every recorded holding of every validator is strictly positive in every reachable state (no negative or
+   zero entries: what is unlocked or slashed never exceeds what is held) *)
+From Goat Require Import Proofs.LockingDerived.
+Theorem C11_holdings_positive : forall p rem goat gas acc ops,
+  0 <= lp_slash_down p <= one18 -> 0 <= lp_slash_double p <= one18 -> Forall wf_op ops ->
+  forall a v t x, l_val (lk_run (empty_lstate p rem goat gas acc) ops) !! a = Some v -> v_hold v !! t = Some x -> 0 < x.
+Proof. intros p rem goat gas acc ops H1 H2 W. apply di_pos. apply reachable_dinv; assumption. Qed.
+Print Assumptions C11_holdings_positive.
